@@ -678,24 +678,26 @@ pub fn sweep32<T: Lay>(lo: u32, hi: u32) -> Option<u32> {
 /// `el_check!` macro inside the generated table, once per layout and primitive integer.
 pub struct ElWrap<A, B>(pub core::marker::PhantomData<(A, B)>);
 pub trait ElYes {
-    fn put(&self, bits: u128, out: &mut Vec<u8>) -> bool;
+    /// (the relation is declared, what is wrong with it)
+    fn check(&self, bits: u128, what: &str) -> (bool, Option<String>);
 }
-impl<A: codec::EncodeLike<B> + Elem, B: Encode> ElYes for ElWrap<A, B> {
-    fn put(&self, bits: u128, out: &mut Vec<u8>) -> bool {
+impl<A: codec::EncodeLike<B> + Elem, B: Elem> ElYes for ElWrap<A, B> {
+    fn check(&self, bits: u128, what: &str) -> (bool, Option<String>) {
         fn store<V: codec::EncodeLike<B>, B: Encode>(v: &V, out: &mut Vec<u8>) {
             // what a storage API does with an `EncodeLike<B>` argument
             v.encode_to(out)
         }
-        store::<A, B>(&A::fb(bits), out);
-        true
+        let mut out = Vec::new();
+        store::<A, B>(&A::fb(bits), &mut out);
+        (true, el_verify::<B>(what, &out, bits, A::WB))
     }
 }
 pub trait ElNo {
-    fn put(&self, bits: u128, out: &mut Vec<u8>) -> bool;
+    fn check(&self, bits: u128, what: &str) -> (bool, Option<String>);
 }
 impl<A, B> ElNo for &ElWrap<A, B> {
-    fn put(&self, _: u128, _: &mut Vec<u8>) -> bool {
-        false
+    fn check(&self, _: u128, _: &str) -> (bool, Option<String>) {
+        (false, None)
     }
 }
 
@@ -761,28 +763,152 @@ impl<T> WrNo for &WrWrap<T> {
     }
 }
 
+// ---- compound peers: tuples and byte arrays (family level, evaluated once per thread)
+
+/// Anything that can sit on either side of a relation in the compound probe.
+pub trait Slot: Encode + Decode + 'static {
+    const SWB: usize;
+    fn sfb(b: u128) -> Self;
+}
+impl<E: Elem> Slot for E {
+    const SWB: usize = E::WB;
+    fn sfb(b: u128) -> Self {
+        E::fb(b)
+    }
+}
+impl<A: Elem, B: Elem> Slot for (A, B) {
+    const SWB: usize = A::WB + B::WB;
+    fn sfb(b: u128) -> Self {
+        (A::fb(b), B::fb(b.rotate_right(8 * A::WB as u32)))
+    }
+}
+impl<const N: usize> Slot for [u8; N] {
+    const SWB: usize = N;
+    fn sfb(b: u128) -> Self {
+        let mut a = [0u8; N];
+        for (i, x) in a.iter_mut().enumerate() {
+            *x = (b >> (8 * (i % 16))) as u8;
+        }
+        a
+    }
+}
+pub struct SlWrap<A, B>(pub core::marker::PhantomData<(A, B)>);
+pub trait SlYes {
+    fn check(&self, bits: u128, what: &str) -> (bool, Option<String>);
+}
+impl<A: codec::EncodeLike<B> + Slot, B: Slot> SlYes for SlWrap<A, B> {
+    fn check(&self, bits: u128, what: &str) -> (bool, Option<String>) {
+        fn store<V: codec::EncodeLike<B>, B: Encode>(v: &V, out: &mut Vec<u8>) {
+            v.encode_to(out)
+        }
+        let mut out = Vec::new();
+        store::<A, B>(&A::sfb(bits), &mut out);
+        let mut s: &[u8] = &out;
+        let r = match B::decode(&mut s) {
+            Ok(_) if s.is_empty() => None,
+            Ok(_) => Some(format!("{} is declared, but storing through it wrote {} bytes where the slot type takes {} ({} left over)", what, out.len(), B::SWB, s.len())),
+            Err(e) => Some(format!("{} is declared, but storing through it wrote {} bytes ({:02x?}) which do not decode as the slot type ({} bytes): {}", what, out.len(), out, B::SWB, e)),
+        };
+        (true, r)
+    }
+}
+pub trait SlNo {
+    fn check(&self, bits: u128, what: &str) -> (bool, Option<String>);
+}
+impl<A, B> SlNo for &SlWrap<A, B> {
+    fn check(&self, _: u128, _: &str) -> (bool, Option<String>) {
+        (false, None)
+    }
+}
+
+macro_rules! sl_pair {
+    ($found:ident, $n:ident, $bits:ident; $A:ty, $B:ty) => {
+        if $found.is_none() {
+            let (d, r) = (&SlWrap::<$A, $B>(core::marker::PhantomData)).check($bits, concat!(stringify!($A), ": EncodeLike<", stringify!($B), ">"));
+            $n += d as u32;
+            $found = r;
+        }
+        if $found.is_none() {
+            let (d, r) = (&SlWrap::<$B, $A>(core::marker::PhantomData)).check($bits, concat!(stringify!($B), ": EncodeLike<", stringify!($A), ">"));
+            $n += d as u32;
+            $found = r;
+        }
+    };
+}
+macro_rules! sl_tuples {
+    ($found:ident, $n:ident, $bits:ident; $S:ty; [$($A:ty),*]; $Bs:tt) => {$( sl_tuples!(@row $found, $n, $bits; $S; $A; $Bs); )*};
+    (@row $found:ident, $n:ident, $bits:ident; $S:ty; $A:ty; [$($B:ty),*]) => {$( sl_pair!($found, $n, $bits; ($A, $B), $S); )*};
+}
+macro_rules! sl_slots {
+    ($found:ident, $n:ident, $bits:ident; [$($S:ty),*]) => {$(
+        sl_tuples!($found, $n, $bits; $S; [FI8, FI16, FI32, FI64, FI128, FU8, FU16, FU32, FU64, FU128]; [FI8, FI16, FI32, FI64, FI128, FU8, FU16, FU32, FU64, FU128]);
+        sl_tuples!($found, $n, $bits; $S; [i8, i16, i32, i64, i128, u8, u16, u32, u64, u128]; [i8, i16, i32, i64, i128, u8, u16, u32, u64, u128]);
+        sl_pair!($found, $n, $bits; [u8; 1], $S);
+        sl_pair!($found, $n, $bits; [u8; 2], $S);
+        sl_pair!($found, $n, $bits; [u8; 4], $S);
+        sl_pair!($found, $n, $bits; [u8; 8], $S);
+        sl_pair!($found, $n, $bits; [u8; 16], $S);
+    )*};
+}
+type FU0 = substrate_fixed::types::extra::U0;
+type FI8 = FixedI8<FU0>;
+type FI16 = FixedI16<FU0>;
+type FI32 = FixedI32<FU0>;
+type FI64 = FixedI64<FU0>;
+type FI128 = FixedI128<FU0>;
+type FU8 = FixedU8<FU0>;
+type FU16 = FixedU16<FU0>;
+type FU32 = FixedU32<FU0>;
+type FU64 = FixedU64<FU0>;
+type FU128 = FixedU128<FU0>;
+
+/// L1, compound peers: every declared `EncodeLike` relation between a fixed-point family and a pair of
+/// fixed-point types, a pair of primitive integers or a byte array (both directions) stores bytes the
+/// slot type reads completely. Returns (relations declared, first dishonest one). A function of the
+/// types alone: evaluated once per thread.
+pub fn el_compound_check() -> (u32, Option<String>) {
+    use std::cell::RefCell;
+    thread_local! {
+        static SEEN: RefCell<Option<(u32, Option<String>)>> = RefCell::new(None);
+    }
+    if let Some(r) = SEEN.with(|s| s.borrow().clone()) {
+        return r;
+    }
+    let bits: u128 = 0x100f_0e0d_0c0b_0a09_0807_0605_0403_0201;
+    let mut found: Option<String> = None;
+    let mut n = 0u32;
+    sl_slots!(found, n, bits; [FI8, FI16, FI32, FI64, FI128, FU8, FU16, FU32, FU64, FU128]);
+    let r = (n, found);
+    SEEN.with(|s| *s.borrow_mut() = Some(r.clone()));
+    r
+}
+
 #[macro_export]
 macro_rules! el_check {
     ($T:ty, $bits:expr) => {{
         #[allow(unused_imports)]
         use $crate::lay::{ElNo as _, ElYes as _, WrNo as _, WrYes as _};
+        type Fr = <$T as substrate_fixed::traits::Fixed>::Frac;
+        type U0 = substrate_fixed::types::extra::U0;
         let bits: u128 = $bits;
         let mut found: Option<String> = (&$crate::lay::WrWrap::<$T>(core::marker::PhantomData)).check(bits, stringify!($T));
+        // relations with the primitive integers ...
         $crate::el_check!(@pair $T, bits, found; i8 i16 i32 i64 i128 u8 u16 u32 u64 u128);
+        // ... and with fixed-point types of every family (no fractional bits / this layout's own count):
+        // within a family the bytes are the same and any relation is honest, across families it is not
+        $crate::el_check!(@pair $T, bits, found;
+            substrate_fixed::FixedI8<U0> substrate_fixed::FixedI16<U0> substrate_fixed::FixedI32<U0> substrate_fixed::FixedI64<U0> substrate_fixed::FixedI128<U0>
+            substrate_fixed::FixedU8<U0> substrate_fixed::FixedU16<U0> substrate_fixed::FixedU32<U0> substrate_fixed::FixedU64<U0> substrate_fixed::FixedU128<U0>
+            substrate_fixed::FixedI8<Fr> substrate_fixed::FixedI16<Fr> substrate_fixed::FixedI32<Fr> substrate_fixed::FixedI64<Fr> substrate_fixed::FixedI128<Fr>
+            substrate_fixed::FixedU8<Fr> substrate_fixed::FixedU16<Fr> substrate_fixed::FixedU32<Fr> substrate_fixed::FixedU64<Fr> substrate_fixed::FixedU128<Fr>);
         found
     }};
     (@pair $T:ty, $bits:ident, $found:ident; $($I:ty)*) => {$(
         if $found.is_none() {
-            let mut out = Vec::<u8>::new();
-            if (&$crate::lay::ElWrap::<$I, $T>(core::marker::PhantomData)).put($bits, &mut out) {
-                $found = $crate::lay::el_verify::<$T>(concat!(stringify!($I), ": EncodeLike<", stringify!($T), ">"), &out, $bits, core::mem::size_of::<$I>());
-            }
+            $found = (&$crate::lay::ElWrap::<$I, $T>(core::marker::PhantomData)).check($bits, concat!(stringify!($I), ": EncodeLike<", stringify!($T), ">")).1;
         }
         if $found.is_none() {
-            let mut out = Vec::<u8>::new();
-            if (&$crate::lay::ElWrap::<$T, $I>(core::marker::PhantomData)).put($bits, &mut out) {
-                $found = $crate::lay::el_verify::<$I>(concat!(stringify!($T), ": EncodeLike<", stringify!($I), ">"), &out, $bits, <$T as $crate::lay::Elem>::WB);
-            }
+            $found = (&$crate::lay::ElWrap::<$T, $I>(core::marker::PhantomData)).check($bits, concat!(stringify!($T), ": EncodeLike<", stringify!($I), ">")).1;
         }
     )*};
 }
